@@ -7,6 +7,7 @@ import (
 	"os"
 	"path/filepath"
 	"runtime/debug"
+	"runtime/pprof"
 	"sort"
 	"strconv"
 	"strings"
@@ -172,7 +173,14 @@ func main() {
 	explain := flag.String("explain", "", "replay file: re-run the obligations listed in it and print details")
 	noEvidence := flag.Bool("no-evidence", false, "do not write evidence (used for mutant runs)")
 	verbose := flag.Bool("v", false, "print every obligation")
+	debug.SetGCPercent(600)
+	cpuprof := flag.String("cpuprofile", "", "write a CPU profile")
 	flag.Parse()
+	if *cpuprof != "" {
+		f, _ := os.Create(*cpuprof)
+		pprof.StartCPUProfile(f)
+		defer pprof.StopCPUProfile()
+	}
 	if t := os.Getenv("VERIF_TIER"); t == "quick" || t == "thorough" {
 		*tier = t
 	}
@@ -212,6 +220,9 @@ func main() {
 	start := time.Now()
 	res := runProp(*prop, f, *repo, *tier)
 	code := finish(res, *prop, *tier, seed, *verif, start, *noEvidence, *verbose)
+	if *cpuprof != "" {
+		pprof.StopCPUProfile()
+	}
 	os.Exit(code)
 }
 
@@ -391,3 +402,5 @@ func writeEvidence(res *Result, prop, tier string, seed int, verif string, wall 
 	b, _ := json.MarshalIndent(ev, "", " ")
 	_ = os.WriteFile(filepath.Join(verif, "evidence", prop+".json"), b, 0o644)
 }
+
+var debugContracts = os.Getenv("E1_DEBUG") != ""
